@@ -32,15 +32,22 @@ def cases():
                 continue
             for path in ("bytes", "file", "moddir", "reloaded"):
                 yield codec, decl, path
+                if decl in ("comment", "input_encoding", "bom"):
+                    yield codec, decl, path, True          # the same with CRLF line ends
 
 
 def run_case(args):
     from mako.template import Template
     from mako import exceptions
-    codec, decl, path = args
+    codec, decl, path = args[:3]
+    crlf = len(args) > 3 and args[3]
     sample = SAMPLES[codec]
     text = body(sample)
     comment = "## -*- coding: %s -*-\n" % codec
+    if crlf:
+        # the same template with CRLF line ends: what Template.source returns is the decoded text, line ends included
+        text = text.replace("\n", "\r\n")
+        comment = comment.replace("\n", "\r\n")
     kw = {}
     expect_error = False
     if decl == "comment":
@@ -102,6 +109,14 @@ def run_case(args):
         out = t.render_unicode(x="X")
         if out != reference:
             return {"codec": codec, "declaration": decl, "path": path, "problem": "renders %r, the decoded text renders %r" % (out[:80], reference[:80])}
+        # Template.source: the template's own decoded text (a leading U+FEFF of BOM input is left aside)
+        eff = "utf-8" if decl.startswith("bom") else (codec if decl != "none" or codec in ("ascii", "utf-8") else None)
+        if eff is not None:
+            want_src = raw.decode(eff).lstrip("\ufeff")
+            got_src = t.source.lstrip("\ufeff")
+            if got_src != want_src:
+                return {"codec": codec, "declaration": decl, "path": path, "crlf": bool(crlf),
+                        "problem": "Template.source is not the decoded text: %r ... expected %r ..." % (got_src[:60], want_src[:60])}
         return None
     finally:
         shutil.rmtree(root, ignore_errors=True)
